@@ -31,8 +31,10 @@ def run(tier):
     d0ops = ["ctor_default", "ctor_ext", "ctor_fill", "ctor_copy", "ctor_move", "assign_copy", "assign_move", "self_assign", "swap", "write", "destroy"]
     plan = [("c08_d0", consts(0, 0, 4, False, d0ops)), ("c08_d1", consts(1, 3, 3, False, ALL_OPS)), ("c08_d2", consts(2, 2, 3, False, ALL_OPS))]
     if tier == "thorough":
-        plan += [("c08_d3", consts(3, 2, 3, False, ALL_OPS)), ("c08_d2_3slots", consts(2, 2, 3, False, ALL_OPS, slots=3)),
-                 ("c08_d2_deep", consts(2, 2, 4, False, ALL_OPS))]
+        deep_ops = ["ctor_iota", "ctor_copy", "ctor_move", "assign_copy", "assign_move", "assign_view", "assign_rview", "swap", "reextent", "reextent_move",
+                    "clear", "destroy", "write"]
+        plan += [("c08_d3", consts(3, 2, 2, False, ALL_OPS)), ("c08_d2_3slots", consts(2, 2, 3, False, ALL_OPS, slots=3)),
+                 ("c08_d2_deep", consts(2, 2, 4, False, deep_ops))]
     events = 0
     for name, c in plan:
         traces = arrays.run_config(rep, "C08", name, c, exe_trk, wd, len(c["Slots"]), trace=True)
